@@ -19,7 +19,8 @@ pub const PIECES: &[&str] = &["", ".", "..", "%2e", "%2E", ".%2e", "%2E%2e", "%2
 #[derive(Clone, Debug, Serialize, Deserialize)]
 pub struct PieceCase {
     pub pieces: Vec<String>,
-    /// 0 namespace, 1 subpath, 2 both
+    /// 0 namespace, 1 subpath, 2 both, 3 both with the subpath repeating the whole package path and going on
+    /// (`pkg:golang/a/b/n#a/b/n/a/b`, the way Go import paths are written)
     pub context: u8,
 }
 
@@ -43,7 +44,8 @@ pub fn strings_for(c: &PieceCase, ty: &str) -> String {
     match c.context {
         0 => format!("pkg:{ty}/{joined}/n@1?k=v"),
         1 => format!("pkg:{ty}/n@1#{joined}"),
-        _ => format!("pkg:{ty}/{joined}/n#{joined}"),
+        2 => format!("pkg:{ty}/{joined}/n#{joined}"),
+        _ => format!("pkg:{ty}/{joined}/n#{joined}/n/{joined}"),
     }
 }
 
@@ -53,7 +55,7 @@ fn judge<I: ParseInst>(c: &PieceCase, ty: &str, st: &mut Stats) -> Result<(), St
     let clean = decoded.iter().all(|d| matches!(d, Some(d) if !d.contains('/')));
     let ns_expected: Vec<String> =
         c.pieces.iter().zip(&decoded).filter(|(p, _)| !p.is_empty()).map(|(_, d)| d.clone().unwrap_or_default()).collect();
-    let sub_expected: Vec<String> = c
+    let mut sub_expected: Vec<String> = c
         .pieces
         .iter()
         .zip(&decoded)
@@ -62,6 +64,11 @@ fn judge<I: ParseInst>(c: &PieceCase, ty: &str, st: &mut Stats) -> Result<(), St
         })
         .map(|(_, d)| d.clone().unwrap_or_default())
         .collect();
+    if c.context == 3 {
+        let once = sub_expected.clone();
+        sub_expected.push("n".to_string());
+        sub_expected.extend(once);
+    }
     let hidden_dot =
         c.pieces.iter().zip(&decoded).any(|(p, d)| !matches!(p.as_str(), "." | "..") && matches!(d.as_deref(), Some(".") | Some("..")));
     match parse::<I>(&s) {
@@ -109,7 +116,7 @@ fn judge<I: ParseInst>(c: &PieceCase, ty: &str, st: &mut Stats) -> Result<(), St
 }
 
 fn o_pieces(c: &PieceCase, st: &mut Stats) -> Result<(), String> {
-    if c.context > 2 {
+    if c.context > 3 {
         return Err("bad replay case: context".into());
     }
     if c.pieces.iter().any(|p| p.contains(['/', '#', '?', '@']) ) {
@@ -144,7 +151,7 @@ fn enum_case(max: u32, mut idx: u64) -> Option<PieceCase> {
 
 fn enum_total(max: u32) -> u64 {
     let k = PIECES.len() as u64;
-    3 * (0..=max).map(|l| k.pow(l)).sum::<u64>()
+    4 * (0..=max).map(|l| k.pow(l)).sum::<u64>()
 }
 
 /// A piece: generated text, each character raw or %XX (either hex case); raw separators are
@@ -182,7 +189,7 @@ fn gpiece() -> BoxedStrategy<String> {
 }
 
 pub fn gpieces() -> BoxedStrategy<PieceCase> {
-    (prop_oneof![6 => proptest::collection::vec(gpiece(), 0..=6), 1 => proptest::collection::vec(gpiece(), 7..=14)], 0u8..3)
+    (prop_oneof![6 => proptest::collection::vec(gpiece(), 0..=6), 1 => proptest::collection::vec(gpiece(), 7..=14)], 0u8..4)
         .prop_map(|(pieces, context)| PieceCase { pieces, context })
         .boxed()
 }
@@ -273,7 +280,7 @@ pub fn prop() -> Prop {
     Prop {
         id: "C07",
         sections,
-        rule: "Lists of pieces joined with raw '/', placed as namespace, as subpath, or both (all lists up to 4 / 6 pieces over \
+        rule: "Lists of pieces joined with raw '/', placed as namespace, as subpath, as both, or as both with the subpath repeating namespace/name and going on (all lists up to 4 / 6 pieces over \
                13 piece kinds incl. '', '.', '..', %2e, %2E, .%2e, %2E%2e, %2F, a%2fb, %5C: complete; random pieces with \
                partial encodings beyond), for all three instantiations. Oracle: if accepted, namespace segments == \
                decoded non-empty pieces, subpath segments == decoded pieces other than raw ''/'.'/'..' and other than \
